@@ -547,6 +547,19 @@ func RunReadSrc(c ReadCase, src *sim.Source, yield func(string)) (out *Outcome) 
 		if w.build {
 			out.Tree = nodes
 		}
+		if out.Err == "" && c.Prog.Kind == "nav" {
+			// at the end of the stream: a refused StepOut when the program issues refused calls at all, then Next once more; a
+			// reader that has reported the end keeps reporting it
+			for _, d := range c.Prog.Decisions {
+				if d.Refused&4 != 0 {
+					r.StepOut()
+					break
+				}
+			}
+			if r.Next() {
+				out.Lines = append(out.Lines, "after-end|Next()==true: "+r.Type().String())
+			}
+		}
 		if err := r.Err(); err != nil {
 			out.Err = err.Error()
 			out.ErrAt = "Err"
